@@ -201,6 +201,18 @@ CLAIMS["C18"] = (
     "the previous one.",
 )
 
+CLAIMS["C13"] = (
+    "4/C13",
+    "assumption-conditioned reachability for the pass-through table, must-pass-through for finish/eof, provenance of the coding label",
+    "Decides ONLY structure: under each pass-through condition (already encoded, 101, 204, 206, identity) the encoder "
+    "selection and head rewrite are unreachable and empty bodies bypass wrapping; the encoder stream tests eof first, "
+    "consumes a finished blocking task before polling the body, returns its trailer only after finish() and with eof "
+    "set (the ended body is never re-polled), and the request decoder sets eof and flushes; the Content-Encoding label, "
+    "the encoder choice and the negotiated value are the same value, Vary is appended, chunking is re-enabled and the "
+    "size is Stream whenever an encoder is present (no stale length); 406 / identity fall-backs of the middleware. "
+    "Losslessness of the codecs and q-value arithmetic are not decided.",
+)
+
 NOT_YET = "check not built yet in this round (planned per DESIGN.md section 4); not claimed until it exists"
 
 NOT_APPLICABLE = {}
